@@ -55,6 +55,20 @@ func parseInfluxLine(
 	multiplier int64,
 	limits *models.Limits,
 ) error {
+	return parseInfluxLineWithEnriched(builder, content, namespace, multiplier, limits, 0)
+}
+
+// parseInfluxLineWithEnriched parses one line; numOfEnrichedTags is the number of request-level tags
+// which the caller adds to the row afterwards, they count for the max-tags-per-metric limit as they
+// do for the protobuf and flat formats.
+func parseInfluxLineWithEnriched(
+	builder *commonseries.RowBuilder,
+	content []byte,
+	namespace string,
+	multiplier int64,
+	limits *models.Limits,
+	numOfEnrichedTags int,
+) error {
 	// skip comment line
 	if bytes.HasPrefix(content, []byte{'#'}) {
 		return nil
@@ -83,6 +97,9 @@ func parseInfluxLine(
 		return err
 	}
 
+	if limits.EnableTagsCheck() && len(tags)+numOfEnrichedTags > limits.MaxTagsPerMetric {
+		return constants.ErrTooManyTagKeys
+	}
 	for k, v := range tags {
 		tagKey := strutil.String2ByteSlice(k)
 		if limits.EnableTagNameLengthCheck() && len(tagKey) > limits.MaxTagNameLength {
